@@ -302,8 +302,13 @@ type c12Monitor struct {
 	// stuck counts parses that blocked forever; each costs the 10 s wait and
 	// leaves a parked goroutine behind, so after three of them the remaining
 	// inputs of this child are skipped (and counted)
-	stuck int
+	stuck     int
+	sentinels int
 }
+
+const c12SentinelValid = "import { Namespace, Context } from \"@ory/keto-namespace-types\"\n\nclass User implements Namespace {}\n\nclass Doc implements Namespace {\n  related: {\n    viewers: User[]\n  }\n  permits = {\n    view: (ctx: Context): boolean => this.related.viewers.includes(ctx.subject),\n  }\n}\n"
+
+const c12SentinelIllTyped = "class Doc implements Namespace {\n  related: {\n    viewers: Undeclared[]\n  }\n}\n"
 
 func inputWitness(s string) map[string]any {
 	w := map[string]any{"len": len(s), "head": fmt.Sprintf("%.300q", s)}
@@ -372,6 +377,24 @@ func (m *c12Monitor) check(idx int64, sub string, c *c12Case, s string, endpoint
 	} else {
 		run.count("inputs_accepted", 1)
 	}
+	// Parse is a function of its input: whatever this input did to the parser, two
+	// fixed documents parsed right afterwards must still get their diagnosis
+	// (alternating: a valid one with two namespaces, one with an undeclared type)
+	m.sentinels++
+	if m.sentinels%2 == 0 {
+		sns, serrs, _, _, spt := c12Parse(c12SentinelValid, c12Budget(len(c12SentinelValid)))
+		run.eval(1)
+		if spt != "" || len(serrs) != 0 || len(sns) != 2 {
+			viol("C12:parse-depends-on-history:valid-document", fmt.Sprintf("a fixed valid document with two classes, parsed right after this input, yields %d namespaces and %d errors (on a fresh parser: 2 and 0) %s", len(sns), len(serrs), firstLine(spt)), map[string]any{"sentinel": c12SentinelValid})
+		}
+	} else {
+		sns, serrs, _, _, spt := c12Parse(c12SentinelIllTyped, c12Budget(len(c12SentinelIllTyped)))
+		run.eval(1)
+		if spt != "" || len(serrs) == 0 {
+			viol("C12:parse-depends-on-history:ill-typed-document", fmt.Sprintf("a fixed document that refers to an undeclared namespace, parsed right after this input, yields %d namespaces and NO error (on a fresh parser: one error) %s", len(sns), firstLine(spt)), map[string]any{"sentinel": c12SentinelIllTyped})
+		}
+	}
+	run.count("sentinel_parses_after_an_input", 1)
 	// result sanity
 	if len(errs) == 0 {
 		if _, err := cfgFromKeto(ns); err != nil {
